@@ -36,7 +36,7 @@ META = {
                    "eliminate_group_by_constant, simplify_expressions, extract_equijoin_predicate, filter_null_join_keys, eliminate_filter/limit/duplicated_expr, optimize_unions, ...)",
                    "Optimizer::with_rules(vec![rule]) and with_rules(all minus one)", "SessionContext::execute_logical_plan without logical optimizer rules (replay)"],
         bounds="SQL over t1(a,b), t2(a,c), t3(b,d) (Int32, nullable): filters, projections, subqueries in FROM, DISTINCT, UNION [ALL], GROUP BY with count/sum/min/max (+FILTER, HAVING), "
-               "2- and 3-way INNER/LEFT/RIGHT/FULL joins with ON / USING / WHERE predicates on either side, cross joins, constant-false inputs; every database with <= 2 (quick) / 3 (thorough) "
+               "2- and 3-way INNER/LEFT/RIGHT/FULL joins with ON / USING / WHERE predicates on either side, cross joins, constant-false inputs; every database with <= 2 "
                "rows per table: all cell values (32 bit) and NULL flags are solver variables",
         outside=["window functions, unnest, recursive queries, GROUPING SETS, IN/EXISTS/scalar subqueries (not encoded: counted as unsupported)", "LIMIT/OFFSET that depends on row order",
                  "tables with more rows than the bound (a rule wrong only for >= 4 rows per table is missed)", "float/string columns", "row ORDER of sorted outputs (results are compared as multisets)"],
